@@ -23,6 +23,13 @@ def anns(line):
 
 class FrpProp(Prop):
     default_mode = "frp-run"
+    category = "translation_validation"
+    design_ref = "DESIGN.md section 6"
+    level_text = ("The implementation's observations (per-listener call sequences, samples, forced lazies, post markers, panics) equal "
+                  "those of the executable denotational specification Spec/Sodium.v (extracted from Coq) on every generated script of "
+                  "this property's profile; theorems about the specification and the mechanism models are listed in the evidence when "
+                  "Props/<id>.v exists.")
+    technique = "Coq specification extracted to OCaml as the oracle + differential correspondence; Coq theorems where listed"
     profile = Profile()
     tag = "frp"
     counts = (1500, 60000)
